@@ -154,6 +154,14 @@ def bounded(params):
                 wc = "decision threshold: tp counts instances that fail the threshold" if dm and any(b.startswith("len(list") for b in bad) else None
                 failures.append({"input": {"pred": list(a), "ref": list(b), "input_type": it, "decision_metric": dm, "decision_threshold": dt, "matcher": matcher},
                                  "problems": bad, "witness_class": wc, "replay_kind": "c02.e2e"})
+    mc = matched_ctor({})
+    evals += 1
+    for pb in mc["problems"][:2]:
+        failures.append({"input": {"case": "MatchedInstancePair label bookkeeping"}, "problems": [pb], "replay_kind": "c02.matched_ctor"})
+    fr = frame({})
+    evals += 1
+    for pb in fr["problems"][:2]:
+        failures.append({"input": {"case": "evaluate_matched_instance frame"}, "problems": [pb], "replay_kind": "c02.frame"})
     return {"evaluations": evals, "distinct_nontrivial": nontriv, "failures": failures,
             "rule": "seeded 1-D label-map pairs (length 5, <=2 labels, canonical) x input type x matcher x decision metric/threshold through the real evaluator; non-trivial = tp > 0",
             "bound": "length 5, 2 labels; quick 60 pairs, thorough 500"}
@@ -195,4 +203,32 @@ def frame(params):
     if d0 != [list(p.default) for p in inspect.signature(Panoptica_Evaluator.__init__).parameters.values() if isinstance(p.default, list)] or \
             d1 != [list(p.default) for p in inspect.signature(PE.panoptic_evaluate).parameters.values() if isinstance(p.default, list)]:
         bad.append("a shared mutable default argument (metric list) was modified by use")
+    return {"violated": bool(bad), "problems": bad[:4]}
+
+
+def matched_ctor(params):
+    """MatchedInstancePair label bookkeeping on all pairs of label subsets of {1,2,3,4}"""
+    import itertools
+    from panoptica.utils.processing_pair import MatchedInstancePair
+    bad = []
+    names = [1, 2, 3, 4]
+    subsets = [c for k in range(0, 4) for c in itertools.combinations(names, k)]
+    for ps in subsets:
+        for rs in subsets:
+            pred, ref = np.zeros(10, np.uint8), np.zeros(10, np.uint8)
+            for l in ps:
+                pred[2 * l: 2 * l + 2] = l
+            for l in rs:
+                ref[2 * l - 1: 2 * l + 1] = l
+            try:
+                mp = MatchedInstancePair(pred, ref)
+                got = (sorted(int(x) for x in mp.matched_instances), sorted(int(x) for x in mp.missed_prediction_labels), sorted(int(x) for x in mp.missed_reference_labels))
+            except Exception as e:
+                bad.append(f"pred labels {ps}, ref labels {rs}: raised {type(e).__name__}: {e}"[:160])
+                continue
+            want = (sorted(set(ps) & set(rs)), sorted(set(ps) - set(rs)), sorted(set(rs) - set(ps)))
+            if got != want:
+                bad.append(f"pred labels {ps}, ref labels {rs}: (matched, missed pred, missed ref) = {got}, expected {want}")
+            if len(bad) > 3:
+                break
     return {"violated": bool(bad), "problems": bad[:4]}
